@@ -75,6 +75,14 @@ def check_rsa(k, bits=None, e=None, generated=False):
                 bad.append("|p-q| = %d is below the FIPS 186-4 margin 2^(nlen/2-100)" % abs(p - q))
             if bits is not None and d <= 1 << (bits // 2):
                 bad.append("d <= 2^(nlen/2)")
+            if bits is not None:
+                # FIPS 186-4 B.3.1: sqrt(2) * 2^(size-1) <= prime <= 2^size - 1, the larger prime having ceil(nlen/2) bits
+                lo, hi = min(p, q), max(p, q)
+                sq, sp = bits // 2, bits - bits // 2
+                if lo.bit_length() != sq or hi.bit_length() != sp:
+                    bad.append("prime factors have %d and %d bits, %d and %d required for a %d-bit modulus" % (lo.bit_length(), hi.bit_length(), sq, sp, bits))
+                elif lo * lo < 1 << (2 * sq - 1) or hi * hi < 1 << (2 * sp - 1):
+                    bad.append("a prime factor is below sqrt(2)*2^(size-1)")
     return bad
 
 
